@@ -828,7 +828,74 @@ def r17_15(chk):
     chk.floor("R17.15", 4, "four row builders")
 
 
+def r17_16(chk):
+    chk.rule("R17.16", "every stored row is built from its own record only: in the row builders that loop over records, a mapping that receives a key under a condition inside the loop (`store['strand'] = ...` only when the location has a single strand) is created afresh in each iteration -- hoisted out of the loop, the value of the previous record is still there when the condition does not hold, so a mixed-strand GenBank location inherits the strand of the feature before it")
+    m = chk.repo.module(DB)
+    n = 0
+    for q in ROW_BUILDERS:
+        fn = m.func(q)
+        for lp in [x for x in walk_no_nested(fn) if isinstance(x, ast.For)]:
+            loopvars = {x.id for x in ast.walk(lp.target) if isinstance(x, ast.Name)}
+            cond_stores = {}
+            for iff in [x for b in lp.body for x in ast.walk(b) if isinstance(x, ast.If)]:
+                for st in ast.walk(iff):
+                    if isinstance(st, ast.Assign):
+                        for t in st.targets:
+                            if isinstance(t, ast.Subscript) and isinstance(t.value, ast.Name) and t.value.id not in loopvars:
+                                cond_stores.setdefault(t.value.id, st)
+            for name, st in cond_stores.items():
+                n += 1
+                fresh = any(isinstance(b, ast.Assign) and any(isinstance(t, ast.Name) and t.id == name for t in b.targets) and isinstance(b.value, (ast.Dict, ast.DictComp, ast.Call)) for b in lp.body)
+                # unconditional re-assignment of the same key at loop-body level also makes the row self-contained
+                keyx = norm(st.targets[0].slice) if isinstance(st.targets[0], ast.Subscript) else ""
+                always = any(isinstance(b, ast.Assign) and any(isinstance(t, ast.Subscript) and norm(t.value) == name and norm(t.slice) == keyx for t in b.targets) for b in lp.body)
+                chk.decide(fresh or always, "R17.16", key(m, q, f"`{name}` is per-record"), m.loc(st), f"`{name}` is created inside the loop", f"`{norm(st)[:60]}` is conditional but `{name}` is created outside the loop over the records: when the condition fails the key keeps the previous record's value (join(complement(70..90),100..120) after a '-' strand feature is stored as '-')")
+    chk.floor("R17.16", 1, "the conditional strand of the GenBank builder")
+
+
+def r17_17(chk):
+    chk.rule("R17.17", "counts over a db are sums over its tables: where an aggregate keeps a running Counter / mapping across the table loop, the per-table part is ADDED to it (Counter.update, +=, acc[k] += n) -- never merged with `|=` (a Counter keeps the maximum), a plain-dict update or an item store (both overwrite): with 3 genes in the gff table and 2 user-added ones biotype_counts() must say 5")
+    m = chk.repo.module(DB)
+    ci = m.cls("SqliteAnnotationDbMixin")
+    n = 0
+    for name in TABLE_AGGREGATES:
+        fn = ci.methods.get(name)
+        if not isinstance(fn, ast.FunctionDef):
+            continue
+        loops = [lp for lp in walk_no_nested(fn) if isinstance(lp, ast.For) and "table_names" in norm(lp.iter)]
+        if not loops:
+            continue
+        accs = {}
+        for st in fn.body:
+            if isinstance(st, ast.Assign) and len(st.targets) == 1 and isinstance(st.targets[0], ast.Name) and st.lineno < loops[0].lineno:
+                v = st.value
+                if isinstance(v, ast.Call) and (call_name(v) or "").split(".")[-1] == "Counter":
+                    accs[st.targets[0].id] = "Counter"
+                elif isinstance(v, ast.Dict) and not v.keys or (isinstance(v, ast.Call) and norm(v.func) == "dict" and not v.args and not v.keywords):
+                    accs[st.targets[0].id] = "dict"
+                elif isinstance(v, ast.Constant) and v.value == 0:
+                    accs[st.targets[0].id] = "int"
+        for acc, kind in accs.items():
+            if kind == "dict" and name in ("to_rich_dict",):
+                continue  # keyed by table name: one entry per table, nothing to add up
+            n += 1
+            bad = None
+            for x in [y for lp in loops for b in lp.body for y in ast.walk(b)]:
+                if isinstance(x, ast.AugAssign) and norm(x.target) == acc and not isinstance(x.op, ast.Add):
+                    bad = x
+                if isinstance(x, ast.Assign) and any(norm(t) == acc for t in x.targets):
+                    bad = x
+                if kind == "dict" and isinstance(x, ast.Call) and isinstance(x.func, ast.Attribute) and x.func.attr == "update" and norm(x.func.value) == acc:
+                    bad = x
+                if kind in ("Counter", "dict") and isinstance(x, ast.Assign) and any(isinstance(t, ast.Subscript) and norm(t.value) == acc for t in x.targets) and not any(isinstance(y, ast.Subscript) and norm(y.value) == acc for y in ast.walk(x.value)) and "get(" not in norm(x.value):
+                    bad = x
+            chk.decide(bad is None, "R17.17", key(m, f"SqliteAnnotationDbMixin.{name}", f"`{acc}` adds up over the tables"), m.loc(bad if bad is not None else fn), f"the running {kind} is only added to", f"`{norm(bad)[:70] if bad is not None else ''}` does not add the table's part to `{acc}`: for a key present in two tables the result keeps one table's count (|= on a Counter keeps the maximum), e.g. 3 'gene' records in gff + 2 in user are reported as 3")
+    chk.floor("R17.17", 2, "num_matches and biotype_counts")
+
+
 def run(chk):
+    r17_17(chk)
+    r17_16(chk)
     r17_15(chk)
     r17_14(chk)
     r17_13(chk)
